@@ -140,4 +140,8 @@ def revisionOf (txt : Option Str) : Nat :=
     let ds := if neg ∨ s.head? = some '+' then s.drop 1 else s
     if !ds.isEmpty && ds.all isDig then (if neg then 0 else digitsVal ds) else 0
 
+/-- `revision_number` setter: a positive integer is stored as its decimal text (`str(int(value))`), anything else is
+    refused (`none`); the argument is the integer VALUE (a bool, a float, a string never get here: refused by type) -/
+def writeRevision (v : Int) : Option Str := if v < 1 then none else some (natStr v.toNat)
+
 end Pptx.CoreProps
